@@ -256,17 +256,28 @@ func c18HRun(c c18HCase, env *c18HEnv, rep int) (hist []c18Rec, viol *C18Viol) {
 	var wrongKey int32
 	exec := func(client int, p prepared) c18Rec {
 		rec := c18Rec{Client: client, In: c18In{Op: c18OpGet, K: p.op.K}}
-		key := env.keys[p.op.K] // private copy: the callee gets a pointer
+		// private copy: the callee gets a pointer to a buffer that the caller
+		// REUSES (overwrites) as soon as the call has returned - the cache must
+		// have copied whatever it wants to remember about the key
+		kp := new(curve.CompressedEdwardsY)
+		*kp = env.keys[p.op.K]
+		scribble := func() {
+			for i := range kp {
+				kp[i] = 0xee
+			}
+		}
 		if p.op.Put {
 			rec.In.Op, rec.In.Val = c18OpPut, p.id
 			rec.Call = atomic.AddInt64(&clk, 1)
-			cacheIface.Put(&key, p.val)
+			cacheIface.Put(kp, p.val)
 			rec.Ret = atomic.AddInt64(&clk, 1)
+			scribble()
 			return rec
 		}
 		rec.Call = atomic.AddInt64(&clk, 1)
-		got := cacheIface.Get(&key)
+		got := cacheIface.Get(kp)
 		rec.Ret = atomic.AddInt64(&clk, 1)
+		scribble()
 		switch {
 		case got == nil:
 			rec.Out.Val = c18Miss
